@@ -96,7 +96,18 @@ def dispatcher(ctx, f, helpers_mod, mapping, pass_dim):
         for p in ["vectors", "probs", "solver"] + (["dim"] if h in pass_dim else []):
             a = b.get(p)
             okp = isinstance(a, ast.Name) and a.id == p
-            ctx.ob("R-THREAD", f, f"{p}->{h}.{p}", okp, "forwarded" if okp else f"`{p}` is not forwarded to {h}", c)
+            detp = "forwarded" if okp else f"`{p}` is not forwarded to {h}"
+            if okp and p in ("vectors", "solver") and f.param(p) is not None:
+                # forwarded UNCHANGED: the states / options the caller gave, not a re-bound (rescaled, filtered, converted) copy
+                rb = [x for x in walk_no_nested(f.node) if isinstance(x, (ast.Assign, ast.AugAssign, ast.AnnAssign)) and getattr(x, "lineno", 0) < c.lineno and
+                      any(isinstance(y, ast.Name) and y.id == p and isinstance(y.ctx, ast.Store) for tg_ in (x.targets if isinstance(x, ast.Assign) else [x.target]) for y in ast.walk(tg_))]
+                if rb and p == "vectors":
+                    okp = False
+                    detp = (f"`{unparse(rb[0])[:80]}` re-binds `{p}` before it is handed to {h}: the programme is solved for transformed states "
+                            "(e.g. np.linalg.norm of a density matrix is its Frobenius norm, so mixed states are rescaled)")
+                elif rb:
+                    okp, detp = None, f"`{p}` is re-bound before the call"
+            ctx.ob("R-THREAD", f, f"{p}->{h}.{p}", okp, detp, c, required=okp is not None)
         okk = isinstance(b.get("**opaque"), ast.Name) and b["**opaque"].id == "kwargs"
         ctx.ob("R-THREAD", f, f"**kwargs->{h}", okk, "forwarded" if okk else f"solver options are not forwarded to {h}", c)
     r_effect_free(ctx, f, ["vectors", "probs"])
